@@ -19,6 +19,16 @@ from ..core import CheckError, VERIF
 from . import common
 
 UNWRAPS = ("unwrap", "expect", "unwrap_err", "expect_err")
+# std operations that panic on an out-of-range position / empty container
+STD_PANICKING = {
+    "std::vec::Vec": ("remove", "insert", "swap_remove", "split_off", "drain", "splice"),
+    "std::string::String": ("remove", "insert", "insert_str", "split_off", "drain", "replace_range", "truncate"),
+    "core::slice::<impl [T]>": ("split_at", "split_at_mut", "swap", "copy_from_slice", "clone_from_slice",
+                                 "chunks", "windows", "rotate_left", "rotate_right", "select_nth_unstable"),
+    "core::str::<impl str>": ("split_at",),
+    "std::collections::VecDeque": ("swap", "insert", "split_off", "drain"),
+    "std::cell::RefCell": ("borrow", "borrow_mut"),
+}
 PANIC_MACROS = ("panic", "unreachable", "unimplemented", "todo", "assert", "assert_eq", "assert_ne")
 
 
@@ -62,8 +72,13 @@ def sites_of(prog, fn):
         elif cp in ("std::ops::Index::index", "std::ops::IndexMut::index_mut"):
             st = t.get("self_ty") or ""
             cont = re.sub(r"<.*", "", st).split("::")[-1]
-            if cont in ("Vec", "HashMap", "VecDeque", "BTreeMap") or st.startswith("["):
+            if cont in ("Vec", "HashMap", "VecDeque", "BTreeMap", "String", "str") or st.startswith("["):
                 out.append(("index", cont or "slice", t.get("ln"), b))
+        else:
+            for owner, names in STD_PANICKING.items():
+                if name in names and re.sub(r"::<[^>]*>(?=::\w+$)", "", cp).startswith(owner):
+                    out.append(("stdcall", "%s::%s" % (owner.split("::")[-1].strip("<>"), name), t.get("ln"), b))
+                    break
     for kind, b, t in bounds.implicit_sites(fn):
         if any("debug_assert" in m for m in t.get("mx", [])):
             continue
@@ -109,6 +124,14 @@ def discharged_locally(prog, fn, b, kind):
     if kind == "index":
         ok, why = bounds.prove_index_call(prog, fn, b, t)
         return ("proved: " + why) if ok else None
+    if kind == "stdcall":
+        # insert(0, x) is always within 0..=len
+        name = (t.get("cpath") or "").split("::")[-1]
+        if name in ("insert", "insert_str") and len(t["args"]) >= 2:
+            k = t["args"][1].get("k") or {}
+            if k.get("int") == 0:
+                return "proved: position 0 is always <= len"
+        return None
     pv = mir.Prov(body)
     if kind in UNWRAPS and t["args"]:
         recv = mir.strip_all(pv.of_operand(t["args"][0]))
